@@ -3595,12 +3595,12 @@ Ops!(
     b"yoyoyo"     , [0x02, 0xB9        ], X, VEX_OP | PREF_66, FMA;
 ]
 "vfmaddpd" = [
-    b"y*y*y*w*"   , [0x03, 0x69        ], X, VEX_OP | AUTO_VEXL | PREF_66, AMD | SSE5;
     b"y*y*w*y*"   , [0x03, 0x69        ], X, VEX_OP | AUTO_VEXL | PREF_66, SSE5 | AMD;
+    b"y*y*y*w*"   , [0x03, 0x69        ], X, VEX_OP | AUTO_VEXL | WITH_REXW | PREF_66, AMD | SSE5;
 ]
 "vfmaddps" = [
-    b"y*y*y*w*"   , [0x03, 0x68        ], X, VEX_OP | AUTO_VEXL | PREF_66, AMD | SSE5;
     b"y*y*w*y*"   , [0x03, 0x68        ], X, VEX_OP | AUTO_VEXL | PREF_66, SSE5 | AMD;
+    b"y*y*y*w*"   , [0x03, 0x68        ], X, VEX_OP | AUTO_VEXL | WITH_REXW | PREF_66, AMD | SSE5;
 ]
 "vfmaddsd" = [
     b"yoyomqyo"   , [0x03, 0x6B        ], X, VEX_OP | PREF_66, AMD | SSE5;
@@ -3649,12 +3649,12 @@ Ops!(
     b"y*y*w*"     , [0x02, 0xB6        ], X, VEX_OP | AUTO_VEXL | PREF_66, FMA;
 ]
 "vfmaddsubpd" = [
-    b"y*y*y*w*"   , [0x03, 0x5D        ], X, VEX_OP | AUTO_VEXL | PREF_66, SSE5 | AMD;
     b"y*y*w*y*"   , [0x03, 0x5D        ], X, VEX_OP | AUTO_VEXL | PREF_66, AMD | SSE5;
+    b"y*y*y*w*"   , [0x03, 0x5D        ], X, VEX_OP | AUTO_VEXL | WITH_REXW | PREF_66, SSE5 | AMD;
 ]
 "vfmaddsubps" = [
-    b"y*y*y*w*"   , [0x03, 0x5C        ], X, VEX_OP | AUTO_VEXL | PREF_66, SSE5 | AMD;
     b"y*y*w*y*"   , [0x03, 0x5C        ], X, VEX_OP | AUTO_VEXL | PREF_66, SSE5 | AMD;
+    b"y*y*y*w*"   , [0x03, 0x5C        ], X, VEX_OP | AUTO_VEXL | WITH_REXW | PREF_66, SSE5 | AMD;
 ]
 "vfmsub123pd" = [
     b"y*y*w*"     , [0x02, 0xAA        ], X, VEX_OP | AUTO_VEXL | WITH_REXW | PREF_66, FMA;
@@ -3777,20 +3777,20 @@ Ops!(
     b"y*y*w*"     , [0x02, 0xB7        ], X, VEX_OP | AUTO_VEXL | PREF_66, FMA;
 ]
 "vfmsubaddpd" = [
-    b"y*y*y*w*"   , [0x03, 0x5F        ], X, VEX_OP | AUTO_VEXL | PREF_66, AMD | SSE5;
     b"y*y*w*y*"   , [0x03, 0x5F        ], X, VEX_OP | AUTO_VEXL | PREF_66, AMD | SSE5;
+    b"y*y*y*w*"   , [0x03, 0x5F        ], X, VEX_OP | AUTO_VEXL | WITH_REXW | PREF_66, AMD | SSE5;
 ]
 "vfmsubaddps" = [
-    b"y*y*y*w*"   , [0x03, 0x5E        ], X, VEX_OP | AUTO_VEXL | PREF_66, AMD | SSE5;
     b"y*y*w*y*"   , [0x03, 0x5E        ], X, VEX_OP | AUTO_VEXL | PREF_66, AMD | SSE5;
+    b"y*y*y*w*"   , [0x03, 0x5E        ], X, VEX_OP | AUTO_VEXL | WITH_REXW | PREF_66, AMD | SSE5;
 ]
 "vfmsubpd" = [
-    b"y*y*y*w*"   , [0x03, 0x6D        ], X, VEX_OP | AUTO_VEXL | PREF_66, AMD | SSE5;
     b"y*y*w*y*"   , [0x03, 0x6D        ], X, VEX_OP | AUTO_VEXL | PREF_66, AMD | SSE5;
+    b"y*y*y*w*"   , [0x03, 0x6D        ], X, VEX_OP | AUTO_VEXL | WITH_REXW | PREF_66, AMD | SSE5;
 ]
 "vfmsubps" = [
-    b"y*y*y*w*"   , [0x03, 0x6C        ], X, VEX_OP | AUTO_VEXL | PREF_66, SSE5 | AMD;
     b"y*y*w*y*"   , [0x03, 0x6C        ], X, VEX_OP | AUTO_VEXL | PREF_66, SSE5 | AMD;
+    b"y*y*y*w*"   , [0x03, 0x6C        ], X, VEX_OP | AUTO_VEXL | WITH_REXW | PREF_66, SSE5 | AMD;
 ]
 "vfmsubsd" = [
     b"yoyomqyo"   , [0x03, 0x6F        ], X, VEX_OP | PREF_66, AMD | SSE5;
@@ -3887,12 +3887,12 @@ Ops!(
     b"yoyoyo"     , [0x02, 0xBD        ], X, VEX_OP | PREF_66, FMA;
 ]
 "vfnmaddpd" = [
-    b"y*y*y*w*"   , [0x03, 0x79        ], X, VEX_OP | AUTO_VEXL | PREF_66, SSE5 | AMD;
     b"y*y*w*y*"   , [0x03, 0x79        ], X, VEX_OP | AUTO_VEXL | PREF_66, AMD | SSE5;
+    b"y*y*y*w*"   , [0x03, 0x79        ], X, VEX_OP | AUTO_VEXL | WITH_REXW | PREF_66, SSE5 | AMD;
 ]
 "vfnmaddps" = [
-    b"y*y*y*w*"   , [0x03, 0x78        ], X, VEX_OP | AUTO_VEXL | PREF_66, AMD | SSE5;
     b"y*y*w*y*"   , [0x03, 0x78        ], X, VEX_OP | AUTO_VEXL | PREF_66, SSE5 | AMD;
+    b"y*y*y*w*"   , [0x03, 0x78        ], X, VEX_OP | AUTO_VEXL | WITH_REXW | PREF_66, AMD | SSE5;
 ]
 "vfnmaddsd" = [
     b"yoyomqyo"   , [0x03, 0x7B        ], X, VEX_OP | PREF_66, SSE5 | AMD;
@@ -3989,12 +3989,12 @@ Ops!(
     b"yoyoyo"     , [0x02, 0xBF        ], X, VEX_OP | PREF_66, FMA;
 ]
 "vfnmsubpd" = [
-    b"y*y*y*w*"   , [0x03, 0x7D        ], X, VEX_OP | AUTO_VEXL | PREF_66, AMD | SSE5;
     b"y*y*w*y*"   , [0x03, 0x7D        ], X, VEX_OP | AUTO_VEXL | PREF_66, AMD | SSE5;
+    b"y*y*y*w*"   , [0x03, 0x7D        ], X, VEX_OP | AUTO_VEXL | WITH_REXW | PREF_66, AMD | SSE5;
 ]
 "vfnmsubps" = [
-    b"y*y*y*w*"   , [0x03, 0x7C        ], X, VEX_OP | AUTO_VEXL | PREF_66, SSE5 | AMD;
     b"y*y*w*y*"   , [0x03, 0x7C        ], X, VEX_OP | AUTO_VEXL | PREF_66, AMD | SSE5;
+    b"y*y*y*w*"   , [0x03, 0x7C        ], X, VEX_OP | AUTO_VEXL | WITH_REXW | PREF_66, SSE5 | AMD;
 ]
 "vfnmsubsd" = [
     b"yoyomqyo"   , [0x03, 0x7F        ], X, VEX_OP | PREF_66, SSE5 | AMD;
@@ -4390,7 +4390,7 @@ Ops!(
 ]
 "vpcmov" = [
     b"y*y*w*y*"   , [0x08, 0xA2        ], X, XOP_OP | AUTO_VEXL, SSE5 | AMD;
-    b"y*y*y*w*"   , [0x08, 0xA2        ], X, XOP_OP | AUTO_VEXL, AMD | SSE5;
+    b"y*y*y*w*"   , [0x08, 0xA2        ], X, XOP_OP | AUTO_VEXL | WITH_REXW, AMD | SSE5;
 ]
 "vpcmpeqb" = [
     b"y*y*w*"     , [0x01, 0x74        ], X, VEX_OP | AUTO_VEXL | PREF_66, AVX;
